@@ -553,7 +553,8 @@ class H(Harness):
         if dup:
             return v
         if exc:
-            return v + [{'signature': 'run-raised:' + exc[0], 'detail': exc}]
+            sig = 'keyerror-although-the-lookup-rule-resolves-every-parameter' if exc[0] == 'KeyError' else 'run-raised:' + exc[0]
+            return v + [{'signature': sig, 'detail': {'exception': exc, 'parameters': sorted(given)}}]
         ids = [l['id'] for l in leaves]
         if obs['all'] != ids:
             v.append({'signature': 'allProcesses-not-the-flattening', 'detail': {'allProcesses': obs['all'], 'expected': ids}})
@@ -571,10 +572,10 @@ class H(Harness):
                 v.append({'signature': 'distribution-not-union-of-components', 'detail': s})
         # state variables are per instance
         sv = obs['statevars']
-        for i, (c, o) in sv.items():
+        for i, vs in sv.items():
             inst = obs['insts'][i]
-            if c != dec(inst, 'compartment') or o != dec(inst, 'occupied'):
-                v.append({'signature': 'state-variable-not-decorated', 'detail': {'leaf': i, 'vars': [c, o]}})
+            if vs != [dec(inst, x) for x in ('compartment', 'occupied', 'infectivity')][:len(vs)]:
+                v.append({'signature': 'state-variable-not-decorated', 'detail': {'leaf': i, 'vars': vs}})
         for (i, a), (j, b) in itertools.combinations(sv.items(), 2):
             if obs['insts'][i] != obs['insts'][j] and set(a) & set(b):
                 v.append({'signature': 'state-variables-shared-between-instances', 'detail': {i: a, j: b}})
@@ -587,6 +588,36 @@ class H(Harness):
             if bad or badl or not ev['topo_same']:
                 v.append({'signature': 'event-changed-foreign-state', 'detail': {'event': ev, 'attributes': bad, 'loci': badl}})
                 break
+        # the values an instance USES at run time are the ones the three-level rule selects
+        import epydemic as ep
+        types = {l['id']: l for l in leaves}
+        for i, ip in obs.get('initial_posted', {}).items():
+            l = types[i]
+            T = rule(l['inst'], tabs[l['type']]['period'], None)
+            exp = sorted((n, T) for n in ip['seeds'])
+            if ip['posted'] != exp:
+                v.append({'signature': 'fixed-recovery-initial-period-not-the-instances-own', 'detail': {'leaf': i, 'inst': l['inst'], 'posted': ip['posted'], 'rule': exp}})
+        for ev in obs['events']:
+            l = types.get(ev['leaf'])
+            if l is None:
+                continue
+            if l['type'] in FIXED and ev['fn'] == 'infect':
+                T = rule(l['inst'], tabs[l['type']]['period'], None)
+                exp = [(ev['e'][0], ev['t'] + T, l['id'])]
+                if ev['posted'] != exp:
+                    v.append({'signature': 'fixed-recovery-period-not-the-instances-own', 'detail': {'event': ev, 'rule': exp}})
+            if 'gate' in ev:
+                gt = ev['gate']
+                eff = rule(l['inst'], ep.SIvR.EFFICACY, None)
+                off = rule(l['inst'], ep.SIvR.T_OFFSET, 0.0)
+                active = bool(gt['vaccinated']) and gt['tv'] is not None and gt['tv'] + off < ev['t']
+                ok = (len(gt['rands']) == 1 and gt['infected'] == (gt['rands'][0] > eff)) if active else (gt['rands'] == [] and gt['infected'])
+                if not ok:
+                    v.append({'signature': 'vaccine-gate-not-with-the-instances-own-parameters', 'detail': {'event': ev, 'efficacy': eff, 'offset': off}})
+        for sn in obs['snaps']:
+            for i, x in sn['vi'].items():
+                if x['missing'] or x['used'] != x['expected']:
+                    v.append({'signature': 'infectivity-not-under-the-instances-own-state-variable', 'detail': {'leaf': i, 't': sn['t'], 'vi': x}})
         if obs['complete']:
             # results: union of keys, the later component wins
             exp = {}
@@ -689,7 +720,9 @@ class H(Harness):
                 optstr(sp['inst']), qdict(sp['before']), qdict(sp['kvs']), qdict(sp['after']))
 
         def snap(s):
-            return '{| sn_sizes := %s; sn_dist := %s |}' % (L.lst(s['sizes'], L.nat), L.lst(
+            ex = L.lst(['(%s, %s)' % (L.nat(i), L.lst(['(%s, %s)' % (S(n), L.q(r) if r is not None else '(4999 # 1)%Q') for n, r in xs]))
+                        for i, xs in sorted(s['extra'].items())])
+            return '{| sn_sizes := %s; sn_extra := %s; sn_dist := %s |}' % (L.lst(s['sizes'], L.nat), ex, L.lst(
                 ['(%s, %s, %s)' % (L.nat(i) if i >= 0 else '4998%nat', S(n or ''), L.q(r)) for i, n, r in s['dist']]))
 
         def event(e):
@@ -722,7 +755,7 @@ class H(Harness):
         given = dict(obs['given'])
         inst = {l['id']: l['inst'] for l in leaves}
         fallback = any(inst[i] is not None and (k + '@' + inst[i]) not in given for (i, k, d, got) in obs['lookups'])
-        types = [l['type'] for l in leaves if l['type'] in ('sir', 'sis')]
+        types = [l['type'] for l in leaves if l['type'] in COMP_TYPES]
         if fallback or len(types) != len(set(types)):
             return str((case['seed'], case['dynamics'], len(leaves)))
         return None
